@@ -22,12 +22,34 @@ Definition oval_eqb (a b : option (Z * string)) : bool :=
 Definition patch := list (nat * fval).
 Definition apply_patch (ps : props) (d : patch) : props := fold_left (fun a e => set_ix (fst e) (snd e) a) d ps.
 
+(* one step of a history on the real chain (ABCI: DeliverTx of the message, proposals through
+   submit / vote / EndBlocker); patches are against the history's starting record *)
+Inductive c19_step : Type :=
+| HMsg (allowed : bool) (new : patch) (ok : bool) (after : patch)
+| HProp (code : Z) (v : Z * string) (submitted ok : bool) (after : patch)
+| HOther (after : patch).                      (* blocks and transactions that are no write path *)
+(* the same with the records spelled out *)
+Inductive c19_rstep : Type :=
+| RMsg (allowed : bool) (new : props) (ok : bool) (after : props)
+| RProp (code : Z) (v : Z * string) (submitted ok : bool) (after : props)
+| ROther (after : props).
+Definition rstep_after (s : c19_rstep) : props :=
+  match s with RMsg _ _ _ a => a | RProp _ _ _ _ a => a | ROther a => a end.
+
 Inductive c19_case : Type :=
 | CSet (cfg rec : nat) (code : Z) (v : Z * string) (ok : bool) (after : patch) (gets : list (Z * option (Z * string)))
 | CProp (cfg rec : nat) (code : Z) (v : Z * string) (ok : bool) (after : patch)
 | CMsg (cfg rec : nat) (allowed : bool) (new : patch) (ok : bool) (after : patch)
 | CGen (cfg : nat) (new : patch) (ok : bool)
-| CGenApp (cfg : nat) (new : patch) (ok : bool) (after : patch).   (* genesis through InitChain *)
+| CGenApp (cfg : nat) (new : patch) (ok : bool) (after : patch)    (* genesis through InitChain *)
+| CHist (cfg rec : nat) (steps : list c19_step).                  (* a history through ABCI *)
+
+Definition resolve (base : props) (s : c19_step) : c19_rstep :=
+  match s with
+  | HMsg a new ok after => RMsg a (apply_patch base new) ok (apply_patch base after)
+  | HProp code v sub ok after => RProp code v sub ok (apply_patch base after)
+  | HOther after => ROther (apply_patch base after)
+  end.
 
 Section Run.
 Variable cfgs : list props.
@@ -42,8 +64,22 @@ Definition result_matches (before : props) (m : option props) (ok : bool) (after
   | None => (negb ok && props_eqb before after)%bool
   end.
 
+Definition rstep_matches (recs : list (string * string)) (cur : props) (s : c19_rstep) : bool :=
+  match s with
+  | RMsg allowed new ok after => result_matches cur (msg_set_all allowed recs cur new) ok after
+  | RProp code v submitted ok after =>
+      if submitted then result_matches cur (apply_proposal recs cur code v) ok after
+      else props_eqb cur after
+  | ROther after => props_eqb cur after
+  end.
+(* every step is judged from the record the real chain held before it *)
+Fixpoint rhist_matches (recs : list (string * string)) (cur : props) (l : list c19_rstep) : bool :=
+  match l with [] => true | s :: r => (rstep_matches recs cur s && rhist_matches recs (rstep_after s) r)%bool end.
+
 Definition case_matches (c : c19_case) : bool :=
   match c with
+  | CHist cfg rec steps =>
+      match cfg_at cfg with None => false | Some ps => rhist_matches (recs_at rec) ps (map (resolve ps) steps) end
   | CSet cfg rec code v ok after gets =>
       match cfg_at cfg with None => false | Some ps =>
         let after := apply_patch ps after in
@@ -145,8 +181,28 @@ Definition set_clauses (ps : props) (code : Z) (v : Z * string) (ok : bool) (aft
                     | Some _, None => false end
         end) gets then [] else ["get"%string]).
 
+(* history clauses: "gate" a record changed without permission / outside a write path; the
+   others as for single requests, each judged from the record before the step *)
+Definition rstep_clauses (cur : props) (s : c19_rstep) : list string :=
+  match s with
+  | RMsg allowed new ok after =>
+      if ok then (if allowed then [] else ["gate"%string]) ++
+                 (if valid_specb after then [] else ["valid"%string]) ++
+                 (if props_eqb new after then [] else ["readback"%string])
+      else if props_eqb cur after then [] else ["reject"%string]
+  | RProp code v submitted ok after =>
+      if (submitted && ok)%bool then set_clauses cur code v true after []
+      else if props_eqb cur after then [] else ["reject"%string]
+  | ROther after => if props_eqb cur after then [] else ["gate"%string]
+  end.
+Fixpoint rhist_clauses (cur : props) (l : list c19_rstep) : list string :=
+  match l with [] => [] | s :: r => rstep_clauses cur s ++ rhist_clauses (rstep_after s) r end.
+
 Definition case_clauses (c : c19_case) : list string :=
   match c with
+  | CHist cfg rec steps =>
+      match cfg_at cfg with None => ["cfg"%string] | Some ps =>
+        (if valid_specb ps then [] else ["valid"%string]) ++ rhist_clauses ps (map (resolve ps) steps) end
   | CSet cfg rec code v ok after gets =>
       match cfg_at cfg with None => ["cfg"%string] | Some ps => set_clauses ps code v ok (apply_patch ps after) gets end
   | CProp cfg rec code v ok after =>
